@@ -84,13 +84,24 @@ _NS_RE = re.compile(r'^\s*namespace\s+(\S+)', re.M)
 
 def property_theorems(prop: str) -> list[str]:
     """Fully qualified names of the theorems stated in Properties/<prop>.lean (one namespace per file)."""
-    f = LEAN / 'QcoVerif' / 'Properties' / f'{prop}.lean'
-    if not f.exists():
-        return []
-    src = strip_comments(f.read_text())
-    ns = _NS_RE.search(src)
-    prefix = (ns.group(1) + '.') if ns else ''
-    return [prefix + m.group(1) for m in _THEOREM_RE.finditer(src)]
+    out = []
+    for f in property_files(prop):
+        src = strip_comments(f.read_text())
+        ns = _NS_RE.search(src)
+        prefix = (ns.group(1) + '.') if ns else ''
+        out += [prefix + m.group(1) for m in _THEOREM_RE.finditer(src)]
+    return out
+
+
+def property_files(prop: str) -> list:
+    """Properties/<prop>.lean and, if present, Properties/<prop>Src.lean (the ties to the source text, kept in a file nothing
+    imports so that a changed source function breaks the obligations of ITS property only)."""
+    d = LEAN / 'QcoVerif' / 'Properties'
+    return [f for f in (d / f'{prop}.lean', d / f'{prop}Src.lean') if f.exists()]
+
+
+def property_modules(prop: str) -> list:
+    return [f'QcoVerif.Properties.{f.stem}' for f in property_files(prop)]
 
 
 def strip_comments(src: str) -> str:
@@ -135,7 +146,7 @@ def audit_axioms(prop: str) -> dict:
     audit_dir = LEAN / '.audit'
     audit_dir.mkdir(exist_ok=True)
     f = audit_dir / f'{prop}.lean'
-    f.write_text(f'import QcoVerif.Properties.{prop}\n' + ''.join(f'#print axioms {n}\n' for n in names))
+    f.write_text(''.join(f'import {m}\n' for m in property_modules(prop)) + ''.join(f'#print axioms {n}\n' for n in names))
     rc, out = run(['lake', 'env', 'lean', str(f)], cwd=str(LEAN), timeout=1800)
     res: dict[str, list[str]] = {}
     # messages look like: 'Qco.C19.match_symm' depends on axioms: [propext]   /  does not depend on any axioms
@@ -166,7 +177,7 @@ def proof_obligations(prop: str, extra_targets: list[str] | None = None) -> dict
         info['translator'] = regenerate_tables()
     except LeanFailure as e:
         info['translator_error'] = e.output[-3000:]
-    targets = [f'QcoVerif.Properties.{prop}', 'qcodriver'] + (extra_targets or [])
+    targets = property_modules(prop) + ['qcodriver'] + (extra_targets or [])
     ok, out, dt = lake_build(targets)
     info['build_ok'] = ok
     info['build_s'] = round(dt, 1)
